@@ -17,6 +17,7 @@ package xlog
 import (
 	"cmp"
 	"slices"
+	"sync"
 
 	"github.com/fatedier/frp/pkg/util/log"
 )
@@ -30,8 +31,10 @@ type LogPrefix struct {
 	Priority int
 }
 
-// Logger is not thread safety for operations on prefix
+// Logger: the prefix list and the rendered prefix are guarded by mu (frpc adds the run id prefix to the
+// service-wide logger at every re-login while goroutines of the previous session still log through it).
 type Logger struct {
+	mu       sync.RWMutex
 	prefixes []LogPrefix
 
 	prefixString string
@@ -44,6 +47,8 @@ func New() *Logger {
 }
 
 func (l *Logger) ResetPrefixes() (old []LogPrefix) {
+	l.mu.Lock()
+	defer l.mu.Unlock()
 	old = l.prefixes
 	l.prefixes = make([]LogPrefix, 0)
 	l.prefixString = ""
@@ -59,6 +64,8 @@ func (l *Logger) AppendPrefix(prefix string) *Logger {
 }
 
 func (l *Logger) AddPrefix(prefix LogPrefix) *Logger {
+	l.mu.Lock()
+	defer l.mu.Unlock()
 	found := false
 	if prefix.Priority <= 0 {
 		prefix.Priority = 10
@@ -77,39 +84,49 @@ func (l *Logger) AddPrefix(prefix LogPrefix) *Logger {
 	return l
 }
 
+// Hold mu before calling this function.
 func (l *Logger) renderPrefixString() {
 	slices.SortStableFunc(l.prefixes, func(a, b LogPrefix) int {
 		return cmp.Compare(a.Priority, b.Priority)
 	})
-	l.prefixString = ""
+	s := ""
 	for _, v := range l.prefixes {
-		l.prefixString += "[" + v.Value + "] "
+		s += "[" + v.Value + "] "
 	}
+	l.prefixString = s
+}
+
+func (l *Logger) prefix() string {
+	l.mu.RLock()
+	defer l.mu.RUnlock()
+	return l.prefixString
 }
 
 func (l *Logger) Spawn() *Logger {
 	nl := New()
+	l.mu.RLock()
 	nl.prefixes = append(nl.prefixes, l.prefixes...)
+	l.mu.RUnlock()
 	nl.renderPrefixString()
 	return nl
 }
 
 func (l *Logger) Errorf(format string, v ...any) {
-	log.Logger.Errorf(l.prefixString+format, v...)
+	log.Logger.Errorf(l.prefix()+format, v...)
 }
 
 func (l *Logger) Warnf(format string, v ...any) {
-	log.Logger.Warnf(l.prefixString+format, v...)
+	log.Logger.Warnf(l.prefix()+format, v...)
 }
 
 func (l *Logger) Infof(format string, v ...any) {
-	log.Logger.Infof(l.prefixString+format, v...)
+	log.Logger.Infof(l.prefix()+format, v...)
 }
 
 func (l *Logger) Debugf(format string, v ...any) {
-	log.Logger.Debugf(l.prefixString+format, v...)
+	log.Logger.Debugf(l.prefix()+format, v...)
 }
 
 func (l *Logger) Tracef(format string, v ...any) {
-	log.Logger.Tracef(l.prefixString+format, v...)
+	log.Logger.Tracef(l.prefix()+format, v...)
 }
